@@ -80,7 +80,11 @@ func GenIndexCfg(r interface{ Intn(int) int }) IndexCfg {
 	// fieldTFRCacheThreshold stays at its default (0 = recycling off): the recycling of term field readers is
 	// disabled upstream because it returns wrong results (MB-64604); only the C02 scenario turns it on, rarely,
 	// and keys what it then sees as a known finding
-	r.Intn(5)
+	// one configuration in five uses an older segment format (zap v11-v16): what is written to root.bolt, copied by
+	// CopyTo and read back by Open / Rollback has to name the format the files really have
+	if r.Intn(5) == 0 {
+		c.SegVer = 11 + r.Intn(6)
+	}
 	return c
 }
 
